@@ -153,7 +153,7 @@ def gen_one(r, mode, vol0, tier):
         return req("cube", 2, [t1], [(0, sc)] * r.randint(6, 12), lmin=NOREFINE_LMIN * sc)
     if mode == "division":
         V = vol0[("sphere", 1.0)]
-        t1 = ty(0, K=K, gavg=r.choice([2e-10, 0.]), gstd=r.choice([0., 2e-11]), dvavg=V * r.choice([0.45, 0.8, 1.001]),
+        t1 = ty(0, K=K, gavg=r.choice([1e-11, 0.]), gstd=r.choice([0., 2e-12]), dvavg=V * r.choice([0.45, 0.8, 1.001]),
                 dvstd=r.choice([0., V * 0.01]), minvol=r.choice([0., V * 0.1, V * 0.3]), Pmax=r.choice([INF, 500.]))
         return req("sphere", 22 if long_run else 11, [t1], [(0, 1.0)], lmin=r.choice([2e-7, 2.5e-7]))
     raise ValueError(mode)
@@ -188,12 +188,12 @@ def complete(block):
     return bool(block) and (block[-1] == "end" or block[-1].startswith("error "))
 
 
-def run_chunk(exe, reqs, timeout):
-    """returns list of (request, block lines, crash text or None)"""
+def run_chunk(exe, reqs):
+    """returns list of (request, block lines, None | 'timeout' | crash text)"""
     res = []
     todo = list(reqs)
     while todo:
-        out, rc, err = vlib.run_lines(exe, todo, timeout=timeout, env=ENV)
+        out, rc, err = vlib.run_lines(exe, todo, timeout=45 + 2 * len(todo), env=ENV)
         blocks = split_blocks(out)
         ok = [b for b in blocks if complete(b)]
         for q, b in zip(todo, ok):
@@ -201,15 +201,15 @@ def run_chunk(exe, reqs, timeout):
         todo = todo[len(ok):]
         if todo and (rc != 0 or len(ok) == 0):
             partial = blocks[len(ok)] if len(blocks) > len(ok) else []
-            res.append((todo[0], partial, "rc=%s %s" % (rc, err[-700:])))
+            res.append((todo[0], partial, "timeout" if rc == "timeout" else "rc=%s %s" % (rc, err[-700:])))
             todo = todo[1:]
     return res
 
 
-def run_all(exe, reqs, jobs=12, timeout=300):
-    chunks = [reqs[i::jobs] for i in range(jobs)]
+def run_all(exe, reqs, jobs=14, size=16):
+    chunks = [reqs[i:i + size] for i in range(0, len(reqs), size)]
     with ThreadPoolExecutor(max_workers=jobs) as ex:
-        parts = list(ex.map(lambda c: run_chunk(exe, c, timeout) if c else [], chunks))
+        parts = list(ex.map(lambda c: run_chunk(exe, c), chunks))
     by = {}
     for p in parts:
         for q, b, c in p:
@@ -504,9 +504,15 @@ def evaluate(reqs_tagged, exe, V, st, use_model=True):
     blocks = []
     n_oracle_fail = 0
     crashes = 0
+    timeouts = 0
     for (mode, q), (_, block, crash) in zip(reqs_tagged, results):
         st.hit("mode_" + mode)
-        if crash is not None:
+        if crash == "timeout":
+            # the solver did not come back (remeshing of a collapsed mesh): termination is not this property's subject;
+            # the part of the log that exists is still checked
+            timeouts += 1
+            st.hit("timeouts")
+        elif crash is not None:
             crashes += 1
             if crashes <= 3:
                 V.fail_input("the real solver ended abnormally in this scenario: %s" % crash, {"line": q, "scenario": describe(q), "mode": mode,
@@ -519,6 +525,8 @@ def evaluate(reqs_tagged, exe, V, st, use_model=True):
                 V.fail_input(what, {"line": q, "scenario": describe(q), "mode": mode, "log_line": pretty(line),
                                     "further": [(w, pretty(l)) for w, l in bad[1:4]]}, key=None)
         blocks.append(block)
+    if timeouts > max(3, len(reqs_tagged) // 25):
+        V.fail_tie("machinery", "%d of %d scenarios timed out: the check is not conclusive" % (timeouts, len(reqs_tagged)))
     model, err = model_blocks(blocks) if use_model else (None, "the model driver does not build from the current source (translation or model broken)")
     disagreements = 0
     identical = 0
@@ -559,7 +567,7 @@ def run(ctx):
         drv_ok, _log, _ = vlib.lake_build(["drv_c04"])
     exe, rebuilt = vlib.build_repo.build_harness(HARNESS, "h_cycle", link_repo=True)
     vol0 = probe_volumes(exe)
-    n = 340 if tier == "quick" else 5000
+    n = 340 if tier == "quick" else 4000
     if not proof["ok"]:
         n = max(n, 1000)       # a proof broke: widen the search for a concrete failing input
     r = Rng(seed)
